@@ -116,6 +116,15 @@ func c02DirectedChains(c *evid.Ctx) {
 		} else {
 			all := uint64(1)<<uint(n0) - 1
 			masks0 = []uint64{all &^ 1, all &^ 3, all &^ 2, 1 << uint(n0-1), all >> 1, 0}
+			// holes: exactly one sector (or two adjacent ones) of T0 missing, everything before
+			// and after it on disk - the frame walk of the first recovery stops at the hole, the
+			// sectors behind it are what a bounded clean-up would leave
+			for j := 1; j+1 < n0; j++ {
+				masks0 = append(masks0, all&^(1<<uint(j)))
+				if j+2 < n0 && j%2 == 1 {
+					masks0 = append(masks0, all&^(3<<uint(j)))
+				}
+			}
 			extra := 6
 			if !quick(c) {
 				extra = 60
